@@ -158,7 +158,18 @@ func (w *c13World) waitFor(r int, states ...string) bool {
 	return false
 }
 
+// observe: a reading of len(limiter) and of the files open that does not fit together (a slot taken, its file not open yet)
+// is repeated for a while - a goroutine may simply not have run yet on a loaded machine; a leaked or stolen slot stays wrong
 func (w *c13World) observe() c13Obs {
+	o := w.observe1()
+	for dl := time.Now().Add(2 * time.Second); !(o.Open <= o.Tokens && o.Tokens <= o.Open+o.Retry) && time.Now().Before(dl); {
+		time.Sleep(10 * time.Millisecond)
+		o = w.observe1()
+	}
+	return o
+}
+
+func (w *c13World) observe1() c13Obs {
 	waiting := 0
 	for _, s := range w.readState() {
 		if s == "wait" {
